@@ -247,6 +247,19 @@ def run(ctx):
                                   dict(wdesc, row=r, P_day=float(pb.tagP[r]), e=float(pb.rows["e"][r])))
                     continue
                 ctx.maxi("dev_over_tol", float(np.max(np.where(ok, dev / tol, 0))))
+                # the very same library object (already evaluated against the base data above) against the twin data: nothing
+                # it remembered from the first evaluation (packed arrays, unit conversions) may answer the second
+                if "data" in what and tw % 2 == 0:
+                    ll_same = np.asarray(jt.marginal_ln_likelihood(data2, pb.lib, in_memory=True), dtype=float)
+                    ctx.evaluations += 1
+                    ctx.distinct.add(repr(("same-library-object-other-data-unit", cls[1], cls[2])))
+                    bad2 = ok & ~(np.abs(ll_same - want) <= tol)
+                    if np.any(bad2):
+                        r = int(np.argmax(np.where(bad2, np.abs(ll_same - want) / tol, 0)))
+                        ctx.violation("likelihood-not-unit-invariant", "the library object already used with the base data (%s), now with "
+                                      "the same data in %s: row %d gives %.12g, expected %.12g" % (pb.du, d2["unit"], r, ll_same[r], want[r]),
+                                      dict(wdesc, row=r, reused_library_object=True))
+                        continue
                 # the MCMC continuation of the same two problems: at one physical point the data term of the model built by
                 # setup_mcmc differs by exactly the same Jacobian, and the RV curves are the same curve in two units
                 if tw == 0 and i % 2 == 0:
